@@ -194,6 +194,8 @@ m("C13", "error/ignore.py", "if type(i) is not rs.OnErrorMux:", "if type(i) is r
 m("C13", "operators/multiplex.py", "                elif type(i) is rs.OnErrorMux:\n                    observer.on_error(i.error)\n\n            return source.subscribe(", "\n            return source.subscribe(", "fire", ["ER-3"])
 m("C13", "operators/filter.py", "                    except Exception as e:", "                    except BaseException as e:", "silent")
 # ---------------------------------------------------------------- C14
+m('C14', 'state/memory_store.py', "                value = self.values[index]\n                if self.data_type is bool:\n                    value = bool(value)\n                yield (", "                value = self.values[index]\n                yield (", 'fire', ['MS-7'], 're-introduces the repaired defect 11967a4: iterate yields the raw byte of a bool state')
+m('C14', 'state/memory_store.py', "                value = self.values[index]\n                if self.data_type is bool:\n                    value = bool(value)\n                yield (\n                    self.keys[index],\n                    value,", "                yield (\n                    self.keys[index],\n                    bool(self.values[index]) if self.data_type is bool else self.values[index],", 'silent', [], 'the conversion of iterate as a conditional expression')
 m("C14", "state/memory_store.py", "        self.values[key[0]] = 0\n", "", "fire", ["MS-3"])
 m("C14", "state/memory_store.py", "append_count = (key[0]+1) - len(self.state)", "append_count = key[0] - len(self.state)", "fire", ["MS-1"])
 m("C14", "state/memory_store.py", "        return index, next_index+1, free_slots", "        return index, next_index, free_slots", "fire", ["MS-4"])
@@ -273,6 +275,8 @@ m('C19', 'io/file.py', '                if type(file) is str:\n                 
 m("C19", "container/json.py", "        'gzip': rs.compression.z.decompress,\n        'zstd': rs.compression.zstd.decompress,", "        'gzip': rs.compression.zstd.decompress,\n        'zstd': rs.compression.z.decompress,", "fire", ["AG-7"])
 m("C19", "container/json.py", "                rs.data.decode(encoding),\n                line.unframe(),\n                load(skip=skip, ignore_error=ignore_error),\n        )\n    else:", "                line.unframe(),\n                rs.data.decode(encoding),\n                load(skip=skip, ignore_error=ignore_error),\n        )\n    else:", "fire", ["AG-7"])
 # ---------------------------------------------------------------- C20
+m('C20', 'container/parquet.py', "pa.array(columns_data[i], type=columns_type[i])", "pa.array(columns_data[i], type=columns_type[i], from_pandas=True)", 'fire', ['PU-2'], 'seed C20g in short: NaN stored as null')
+m('C20', 'container/parquet.py', "pa.array(columns_data[i], type=columns_type[i])", "pa.array(columns_data[i])", 'silent', [], 'type left to inference: from_arrays(schema=...) casts (checked against pyarrow)')
 m('C20', 'container/parquet.py', "                    else:\n                        _load_file(filename)\n", "", 'fire', ['PU-2'], 'mutation round 4: the loader ignores a file object')
 m('C20', 'container/parquet.py', "f = open_obj(filename, mode='wb')", "f = open_obj(filename, mode='ab')", 'fire', ['PU-2'], 'mutation round 4: parquet file opened for appending')
 m('C20', 'container/parquet.py', "                        compression=compression,\n                        encryption_properties=encryption_properties,\n", "                        compression=compression,\n                        coerce_timestamps='ms',\n                        encryption_properties=encryption_properties,\n", 'fire', ['PU-2'], 'writer option that rewrites values')
